@@ -2,7 +2,11 @@
 
 Part 1, round trip (E1).  Styled lines (style alphabet of DESIGN section 3 C03/C19:
 null, every attribute on/off, attribute pairs, 16 colour spellings of every kind as
-foreground and background, K x K colour pairs, links) are printed on a truecolor
+foreground and background, K x K colour pairs, links -- one plain URL in all the
+combinations plus 36 URLs (LINKS) that contain each character structural in the
+surrounding escape syntax: ";" ":" "=" "\\" "[" "]" and "%" "#" "?" "&", in the middle,
+at the end and doubled, and look-alikes of the OSC 8 "id=" parameter field inside the
+URL such as "https://e.x/?id=7;x=1") are printed on a truecolor
 terminal console; the bytes written are decoded by ``rich.ansi.AnsiDecoder().decode``
 and, independently, by vf/term.py.  Per character (char, attributes that are on,
 foreground, background, link) must equal what the *descriptions* say was printed.
@@ -16,7 +20,9 @@ shard (decoder history): it must give the same answer as a fresh one.
 Part 2, FileProxy (E2 histories).  A stream is a concatenation of <=3 lines of a line
 alphabet (plain, empty, ANSI-styled, markup-like, emoji-code-like, number, wide, a
 line that leaves an SGR state open), every line ended by a newline or the last left
-open.  For each stream EVERY way of cutting it into k ``write()`` calls (cut points at
+open; a further alphabet LK holds "ab" and 16 OSC 8 hyperlink lines as other programs
+write them (empty or id=9 parameter field, the structural-character URLs of LINKS), used
+in 1-line (thorough also 2-line) streams with k=2 (thorough k=3) writes.  For each stream EVERY way of cutting it into k ``write()`` calls (cut points at
 every character position, also inside escape sequences; empty writes included, which
 covers fewer writes) x every placement of <=f ``flush()`` calls in the gaps (also twice
 in the same gap) is executed on a fresh ``FileProxy(console, sink)``; then a closing
@@ -79,6 +85,17 @@ LEVEL_NOTE = ("Trusted: CPython, vf/term.py (tokeniser, SGR/OSC-8 decoder, Scree
               "a 9(+2)-line alphabet; <=4 (thorough <=5) writes; <=2 flushes + closing flushes.")
 
 LINK = "https://e.x/a?b=c"
+# Link universe: URLs containing every character that is structural in the syntax around a link --
+# OSC 8 ";" parameter separator, ":" and "=" of the id=... parameter, "\\" of the ST terminator,
+# "[" "]" "m" "8" of CSI / OSC introducers and the SGR final byte -- and the usual URL punctuation
+# "%", "#", "?", "&"; each in the middle, at the end and doubled; plus look-alikes of the OSC 8
+# parameter field inside the URL.  No ESC / BEL inside a URL (those cannot be carried by OSC 8).
+LINK_CHARS = [";", ":", "=", "\\", "%", "#", "?", "&", "[", "]"]
+LINKS_MID = ["https://e.x/a%sb" % ch for ch in LINK_CHARS]
+LINKS_ALIKE = ["https://e.x/?id=7;x=1", "https://e.x/app;jsessionid=A1?x=1", "https://e.x/q?a=1;b=2;c=3",
+               "https://e.x/;id=7", "https://e.x/8;;m", "http://u:p@e.x:8080/p%20q?a=1&b=2#f"]
+LINKS = (LINKS_MID + LINKS_ALIKE + ["https://e.x/a%s" % ch for ch in LINK_CHARS]
+         + ["https://e.x/a%s%sb" % (ch, ch) for ch in LINK_CHARS])
 NULLVIS = ((), None, None, None)
 W, H = 80, 50
 MARK = "=#="
@@ -126,6 +143,9 @@ def universe(tier):
         add(_sd(bg=c, link=LINK))
     add(_sd([("bold", False)], link=LINK))
     add(_sd([("bold", True), ("underline", True)], fg="#ff8700", bg="color(100)", link=LINK))
+    for u in LINKS:
+        add(_sd(link=u))
+        add(_sd([("bold", True)], fg="#ff8700", link=u))
     for a, b in itertools.combinations(ATTRS, 2):
         for va, vb in ((True, True), (True, False), (False, True)):
             add(_sd([(a, va), (b, vb)]))
@@ -160,6 +180,7 @@ def pair_menu(tier):
             _sd([("overline", True)], bg="color(100)"),
             _sd([(a, True) for a in ATTRS], fg="color(9)", bg="#808080", link=LINK)]
     out += [_sd([(a, False)]) for a in ATTRS if a not in ("bold", "dim", "underline", "reverse")]
+    out += [_sd(link=u) for u in LINKS_MID + LINKS_ALIKE]
     out += [_sd(fg=c, link=LINK) for c in ("default", "color(9)", "color(100)", "#ff8700")]
     out += [_sd(bg=c, link=LINK) for c in ("default", "color(1)", "color(232)", "#010203")]
     out += [_sd([("bold", False), ("italic", True)]), _sd([("underline", False)], fg="color(7)"),
@@ -184,7 +205,8 @@ def triple_menu(tier):
            _sd(fg="color(1)"), _sd(fg="color(9)"), _sd(bg="color(100)"), _sd(fg="#ff8700", bg="#010203"),
            _sd(link=LINK), _sd([("bold", True)], fg="#010203", link=LINK), _sd(fg="default", bg="default"),
            _sd([("dim", True), ("strike", True)], bg="color(9)"), _sd([("reverse", True)], fg="#808080"),
-           _sd(link="http://o.th/er"), _sd([("underline2", True)], fg="color(232)"), _sd(bg="#000000")]
+           _sd(link="http://o.th/er"), _sd([("underline2", True)], fg="color(232)"), _sd(bg="#000000"),
+           _sd(link=LINKS_MID[0]), _sd([("italic", True)], link=LINKS_ALIKE[0])]
     if tier != "quick":
         out += [_sd([(a, True)]) for a in ATTRS if a != "bold"]
         out += [_sd(fg="color(16)"), _sd(bg="color(255)"), _sd(bg="color(15)"), _sd(fg="color(0)"),
@@ -411,7 +433,10 @@ def _part_rt(sh, tier, res):
 L5 = ["ab", "", "\x1b[1mB\x1b[0m c", "[b]x", "あ"]
 L9 = L5 + [":a:", "[/b]y", "7", "\x1b[31mR"]
 L11 = L9 + ["\x1b[1;4mU\x1b[22mV\x1b[0m", "\x1b]8;;http://a\x1b\\L\x1b]8;;\x1b\\"]
-ALPHABETS = {"L5": L5, "L9": L9, "L11": L11}
+# OSC 8 lines as other programs write them: empty parameter field or an id=... parameter, ST terminated
+LK = ["ab"] + ["\x1b]8;%s;%s\x1b\\L\x1b]8;;\x1b\\" % ("" if i % 2 == 0 else "id=9", u)
+               for i, u in enumerate(LINKS_MID + LINKS_ALIKE)]
+ALPHABETS = {"L5": L5, "L9": L9, "L11": L11, "LK": LK}
 
 
 def streams(alpha, minlines, maxlines):
@@ -452,6 +477,8 @@ def stream_sets(tier):
             ("Ce", "live", "L5", 1, 2, 2, 1, ["e"]),
             ("D", "progress", "L5", 1, 2, 2, 1, ["o", "e"]),
             ("E", "live", "L5", 1, 2, 3, 0, ["oeo", "eoe", "ooe", "eeo"]),
+            ("K", "bare", "LK", 1, 1, 2, 1, ["o"]),
+            ("Kl", "live", "LK", 1, 1, 2, 0, ["o"]),
         ]
     return [
         ("A", "bare", "L5", 1, 3, 4, 2, ["o"]),
@@ -463,6 +490,9 @@ def stream_sets(tier):
         ("C4", "live", "L9", 1, 2, 4, 0, ["o"]),
         ("D", "progress", "L9", 1, 2, 3, 1, ["o", "e"]),
         ("E", "live", "L5", 1, 2, 3, 1, ["oeo", "eoe", "ooe", "eeo", "oee", "eoo"]),
+        ("K", "bare", "LK", 1, 1, 3, 1, ["o"]),
+        ("K2", "bare", "LK", 2, 2, 2, 1, ["o"]),
+        ("Kl", "live", "LK", 1, 1, 2, 1, ["o", "e"]),
     ]
 
 
@@ -866,7 +896,8 @@ def describe(tier, seed, res):
                 "non-decreasing tuple of cut offsets (empty writes included) x every placement of the flushes in the gaps "
                 "(also twice in one gap) + two closing flushes; judged after every call. Sets -- %s. "
                 "Alphabets: L5 = plain, empty, SGR-styled, markup-like, wide; L9 = L5 + emoji-code-like, closing-tag-like, "
-                "number, line leaving SGR 31 open; L11 = L9 + SGR 22 line, OSC-8 link line. "
+                "number, line leaving SGR 31 open; L11 = L9 + SGR 22 line, OSC-8 link line; LK = plain + 16 OSC-8 link lines "
+                "whose URLs contain ; : = \\ %% # ? & [ ] and id= look-alikes. "
                 "A case is non-trivial when a write boundary falls inside a line or a flush emits a partial line (part 2) / "
                 "when some character carries a style (part 1); distinct = distinct outcome signatures."
                 % (len(universe(tier)), len(pair_menu(tier)), len(triple_menu(tier)), sets),
